@@ -32,6 +32,7 @@ type methodInfo struct {
 	ServerS  bool
 	mkReq    func(payload []byte, pathVar string) proto.Message
 	mkResp   func(payload []byte) proto.Message
+	mkBody   func(payload []byte) proto.Message // HTTP routes with a body selector: what travels in the body
 	newReq   func() proto.Message
 	newResp  func() proto.Message
 	httpPath func(pathVar string) string // annotated / implicit HTTP path
@@ -111,6 +112,31 @@ var methods = map[string]*methodInfo{
 		mkResp:  func(p []byte) proto.Message { return &grpc_testing.StreamingOutputCallResponse{Payload: pl(p)} },
 		newReq:  func() proto.Message { return &grpc_testing.StreamingOutputCallRequest{} },
 		newResp: func() proto.Message { return &grpc_testing.StreamingOutputCallResponse{} }},
+	// service-config routes with a path variable and a body selector
+	// (body: "payload"): the HTTP body carries only the Payload sub-message
+	"bidisel": {Key: "bidisel", Service: tsvc, Name: "FullDuplexCall", ClientS: true, ServerS: true,
+		mkBody: func(p []byte) proto.Message { return pl(p) },
+		mkReq: func(p []byte, pv string) proto.Message {
+			m := &grpc_testing.StreamingOutputCallRequest{Payload: pl(p)}
+			if pv != "" {
+				m.ResponseStatus = &grpc_testing.EchoStatus{Message: pv}
+			}
+			return m
+		},
+		mkResp:   func(p []byte) proto.Message { return &grpc_testing.StreamingOutputCallResponse{Payload: pl(p)} },
+		newReq:   func() proto.Message { return &grpc_testing.StreamingOutputCallRequest{} },
+		newResp:  func() proto.Message { return &grpc_testing.StreamingOutputCallResponse{} },
+		httpPath: func(v string) string { return "/v1/duplex/" + v }},
+	"unarysel": {Key: "unarysel", Service: tsvc, Name: "UnaryCall",
+		mkBody: func(p []byte) proto.Message { return pl(p) },
+		mkReq: func(p []byte, pv string) proto.Message {
+			n, _ := strconv.Atoi(pv)
+			return &grpc_testing.SimpleRequest{Payload: pl(p), ResponseSize: int32(n)}
+		},
+		mkResp:   func(p []byte) proto.Message { return &grpc_testing.SimpleResponse{Payload: pl(p)} },
+		newReq:   func() proto.Message { return &grpc_testing.SimpleRequest{} },
+		newResp:  func() proto.Message { return &grpc_testing.SimpleResponse{} },
+		httpPath: func(v string) string { return "/v1/unary/" + v }},
 	// HttpBody chunk streaming: the request "message" is the raw chunk.
 	"files": {Key: "files", Service: "larking.testpb.Files", Name: "LargeUploadDownload", ClientS: true, ServerS: true, httpBodyResp: true,
 		mkReq: func(p []byte, pathVar string) proto.Message {
